@@ -43,6 +43,9 @@ def _sampler_case(draw, tier):
         "bucket_of": [draw(st.sampled_from(ids)) for _ in range(N)],
         "sizes": [[b, draw(st.integers(1, 5))] for b in ids],
         "drop": draw(st.booleans()),
+        # a pass that is abandoned after this many batches (peeking at the first batch, a break in the training loop)
+        # before the pass that is judged
+        "abandon": draw(st.sampled_from([None, None, 1, 2, 0, 3])),
     }
 
 
@@ -50,7 +53,7 @@ def _sampler_case(draw, tier):
           doc="BucketBatchSampler over any index sequence (permutation, sub-sequence, with repeats), 1..4 bucket ids "
               "(ints, strings, mixed), sizes 1..5, drop_incomplete: single-bucket batches, per-bucket concatenation == "
               "sub-sequence of the sampler order (minus a tail < one batch when dropping), exact sizes, yield-when-full order",
-          required_classes=["two_buckets_incomplete", "mixed_ids", "drop", "keep", "repeats"])
+          required_classes=["two_buckets_incomplete", "mixed_ids", "drop", "keep", "repeats", "after_abandoned_pass"])
 def _sampler_check(case):
     from pydrobert.torch import data
 
@@ -58,6 +61,15 @@ def _sampler_check(case):
     idx2bucket = {i: b for i, b in enumerate(case["bucket_of"])}
     bucket2size = {b: s for b, s in case["sizes"]}
     sampler = data.BucketBatchSampler(list(order), dict(idx2bucket), dict(bucket2size), case["drop"])
+    abandoned = False
+    if case.get("abandon") is not None:
+        it = iter(sampler)
+        for _ in range(case["abandon"]):
+            if next(it, None) is None:
+                break
+        else:
+            abandoned = True
+        del it
     batches = [list(b) for b in sampler]
     stats = _law(O.bucket_laws, order, batches, idx2bucket, bucket2size, case["drop"])
     again = [list(b) for b in sampler]
@@ -78,6 +90,8 @@ def _sampler_check(case):
         cl.append("two_buckets_incomplete")
     if not order:
         cl.append("empty_order")
+    if abandoned:
+        cl.append("after_abandoned_pass")
     return Info(nontrivial=nontrivial or not order, classes=cl)
 
 
